@@ -46,16 +46,13 @@ def sample : IModel :=
     ps := [.reif .lt 0 1 2, .linLe [1, 1] [0, 1] 3, .leq (.tpos (.var 0) 2) (.plus (.var 1) 1)] }
 
 example : sample.WF := by
-  refine ⟨by decide, ?_, ?_, ?_⟩
+  refine ⟨by decide, ?_, ?_⟩
   rotate_left
   · intro b hb w hw
     simp [IModel.bools, sample, PK.boolVars] at hb
     subst hb
     simp [IModel.store, sample] at hw
     omega
-  · intro k hk
-    simp only [sample, List.mem_cons, List.mem_nil_iff, or_false] at hk
-    rcases hk with rfl | rfl | rfl <;> trivial
   intro k hk
   simp only [sample, List.mem_cons, List.mem_nil_iff, or_false] at hk
   rcases hk with rfl | rfl | rfl
